@@ -636,6 +636,41 @@ theorem subpixel_offset_decomposition_partial (L : InfL) (t : Rat) :
   simp only [InfL.evolveWith]
   refine ⟨by ring, by ring, trivial⟩
 
+/-- **The read-out request** (`InfL.interpRequest`, executed by the driver and compared with the intercepted
+`affine_transform` call of every `evolve_until` of an interpolating layer): the screen is asked at its own pixel grid
+(`matrix = [1, 1]`, spline order 5, `mode='nearest'`) displaced by an offset that is — per axis, in pixels of that
+axis, in (row, column) = (y, x) order — minus the part of the accumulated displacement the extrusions have not
+taken: `centre/δ = whole pixels − offset`.  On a whole-pixel displacement the offset is zero.  (The spline operator
+itself is SciPy's and stays outside the model: `subpixel_offset_decomposition_partial`.) -/
+theorem interp_request_offset (L : InfL) (t : Rat) (hx : L.delta.1 ≠ 0) (hy : L.delta.2 ≠ 0) :
+    let L' := L.evolveWith sideX sideY t
+    L'.center.1 / L.delta.1 = pixel L'.center.1 L.delta.1 - L'.interpRequest.offset.2 ∧
+    L'.center.2 / L.delta.2 = pixel L'.center.2 L.delta.2 - L'.interpRequest.offset.1 ∧
+    L'.interpRequest.matrix = (1, 1) ∧ L'.interpRequest.order = 5 ∧ L'.interpRequest.nearest = true ∧
+    (L'.sub = (0, 0) → L'.interpRequest.offset = (0, 0)) := by
+  intro L'
+  have hd : L'.delta = L.delta := by
+    show (InfL.extrudeN _ _ (InfL.extrudeN _ _ L)).delta = L.delta
+    rw [(InfL.extrudeN_params _ _ _).2.2.1, (InfL.extrudeN_params _ _ _).2.2.1]
+  have hs : L'.sub = (L'.center.1 - pixel L'.center.1 L.delta.1 * L.delta.1,
+      L'.center.2 - pixel L'.center.2 L.delta.2 * L.delta.2) := rfl
+  refine ⟨?_, ?_, rfl, rfl, rfl, ?_⟩
+  · show _ = _ - (-L'.sub.1 / L'.delta.1)
+    rw [hd, hs]
+    field_simp
+    ring
+  · show _ = _ - (-L'.sub.2 / L'.delta.2)
+    rw [hd, hs]
+    field_simp
+    ring
+  · intro h0
+    show ((-L'.sub.2 / L'.delta.2, -L'.sub.1 / L'.delta.1) : V2) = (0, 0)
+    rw [h0]
+    simp
+
+example : (InfL.new 3 3 (1/4, 1/2) (1/4, -1/2) ⟨1, 10⟩ 7).delta.1 ≠ 0 ∧ (InfL.new 3 3 (1/4, 1/2) (1/4, -1/2) ⟨1, 10⟩ 7).delta.2 ≠ 0 := by
+  decide +kernel
+
 /-! ## The synthesis hypothesis, executed: `synth` with the exact character into `ℚ[ℤ/M]`
 
 The driver op `C15 synth` runs `Shift.synth` itself with the character `cycChar M : ℚ → ℚ[ℤ/M]` on the real factory's
@@ -804,6 +839,32 @@ theorem heap_replay_after_reset_finite (k : SeedKind) (nx ny : Nat) (vel : V2) (
   show FinC.step C (.op (.reset false)) = _
   rw [FinC.reset_false_eq_fresh, hC, hk.1, hk.2.1, hk.2.2]
   rfl
+
+/-- **Replay after reset, heap form (infinite layer)**: build the layer any way (`k`: integer seed, a snapshot of the
+caller's generator, or — before D151 — the caller's generator itself), run any history of the layer's own operations
+without an independent reset (evolutions, refused backwards evolutions, plain resets, parameter changes) and reset:
+seen through the handles the layer is the freshly built layer with the velocity and parameters in force, so it shows
+the same screens under every later history. -/
+theorem heap_replay_after_reset_infinite (k : SeedKind) (nx ny : Nat) (delta vel : V2) (par : Par) (g : Rng)
+    (h₁ h : List Op) (hh : ∀ o ∈ h₁, o.isIndep = false) :
+    let H := (HInf.new k nx ny delta vel par g).run infAccess h₁
+    let L := H.view infAccess
+    ((H.step infAccess (.reset false)).run infAccess h).view infAccess
+      = (InfL.fresh nx ny delta L.vel L.par (g.draw (nx + ny))).run h := by
+  intro H L
+  obtain ⟨hw, hv, _⟩ := heap_new_infinite k nx ny delta vel par g
+  obtain ⟨e1, w1⟩ := heap_simulates_infinite _ hw h₁
+  obtain ⟨e2, w2, d2, _⟩ := HL.step_view infAccess infAccess_lawful H (.reset false) w1.1 (Or.inl w1.2)
+  rw [(heap_simulates_infinite _ ⟨w2, d2⟩ h).1, e2]
+  congr 1
+  have hL : L = (InfL.fresh nx ny delta vel par (g.draw (nx + ny))).run h₁ := by rw [← hv]; exact e1
+  have hp := (InfL.fresh nx ny delta vel par (g.draw (nx + ny))).run_shape h₁
+  have ho := (InfL.fresh nx ny delta vel par (g.draw (nx + ny))).run_orig h₁ hh
+  show L.reset false = _
+  rw [InfL.reset_false_eq_fresh, hL, hp.1, hp.2.1, hp.2.2, ho]
+  rfl
+
+example : ∀ o ∈ [Op.evolve 1, Op.setCn2 4, Op.evolve (1 / 2), Op.reset false, Op.evolve 3], o.isIndep = false := by decide
 
 /-! ## The finite layer's lazy noise and cached screen (`FinC`) -/
 
@@ -1003,6 +1064,90 @@ theorem multilayer_time_fanout (A : MLA) (t : Rat) (ht : ∀ a ∈ A.layers, a.t
 
 example : ∀ a ∈ (MLA.new [⟨false, 2, 2, (1, 1), (1, 0), ⟨1, 10⟩, 3⟩, ⟨true, 2, 2, (1, 1), (1, 0), ⟨1, 10⟩, 4⟩]).layers,
     a.t ≤ 5 := by decide +kernel
+
+/-- **Fan-out of the time, whatever the atmosphere's own clock says.**  `evolve_until(t)` never consults `atm._t`: for an
+atmosphere in *any* state — its stored time equal to `t` or not, its layers in step with it or not (a layer reset or
+evolved directly, a finite layer ahead of `t`) — if no infinite layer is ahead of `t`, the call succeeds and leaves
+every layer and the atmosphere at `t`. -/
+theorem multilayer_time_fanout_any_clock (A : MLA) (t : Rat) (ht : ∀ a ∈ A.layers, a.accepts t) :
+    (A.step (.evolve t)).t = t ∧ (∀ a ∈ (A.step (.evolve t)).layers, a.t = t) ∧
+    ∀ s : Rat, (({ A with t := s } : MLA).step (.evolve t)) = A.step (.evolve t) := by
+  have h := evolveAll_accepts t A.layers ht
+  refine ⟨by simp [MLA.step, MLA.evolve, h], ?_, ?_⟩
+  · intro a ha
+    simp only [MLA.step, MLA.evolve, h, List.mem_map] at ha
+    obtain ⟨b, hb, rfl⟩ := ha
+    exact (b.evolve?_accepts t (ht b hb)).2
+  · intro s
+    simp [MLA.step, MLA.evolve, h]
+
+example : ∀ a ∈ ((MLA.new [⟨false, 2, 2, (1, 1), (1, 0), ⟨1, 10⟩, 3⟩, ⟨true, 2, 2, (1, 1), (1, 0), ⟨1, 10⟩, 4⟩]).step
+    (.direct 0 (.evolve 7))).layers, a.accepts 5 := by
+  intro a ha
+  simp [MLA.new, MLA.step, modifyAt, AnyL.new] at ha
+  rcases ha with rfl | rfl
+  · trivial
+  · show (0 : Rat) ≤ 5
+    decide
+
+/-- **Equal target time after a layer was reset behind the atmosphere.**  `atm.evolve_until(T); layer.reset();
+atm.evolve_until(T)`: for an atmosphere in any state (in particular `atm._t = t`), after `reset()` on the layer object
+`j` and `evolve_until(t)` with a time no layer refuses, the atmosphere and every layer are at `t`, and layer `j` is —
+as a state, hence in every screen it shows from then on — the layer freshly built with its seed and the velocity and
+parameters in force, evolved to `t`. -/
+theorem multilayer_equal_time_after_layer_reset (A : MLA) (j : Nat) (a : AnyL) (t : Rat) (h0 : 0 ≤ t)
+    (hj : A.layers[j]? = some a) (ht : ∀ b ∈ A.layers, b.accepts t) :
+    let B := (A.step (.direct j (.reset false))).step (.evolve t)
+    B.t = t ∧ (∀ b ∈ B.layers, b.t = t) ∧
+    B.layers[j]? = some ((AnyL.ofIdent a.ident a.vel a.par).step (.evolve t)) := by
+  intro B
+  have hacc : ∀ b ∈ (A.step (.direct j (.reset false))).layers, b.accepts t := by
+    intro b hb
+    rcases mem_modifyAt _ j A.layers b hb with hb | ⟨c, _, rfl⟩
+    · exact ht b hb
+    · exact AnyL.accepts_of_le _ t (by rw [AnyL.reset_t]; exact h0)
+  have h := multilayer_time_fanout_any_clock (A.step (.direct j (.reset false))) t hacc
+  refine ⟨h.1, h.2.1, ?_⟩
+  have he := evolveAll_accepts t _ hacc
+  show ((A.step (.direct j (.reset false))).evolve t).layers[j]? = _
+  simp only [MLA.evolve, he, List.getElem?_map]
+  show ((modifyAt (·.step (.reset false)) j A.layers)[j]?).map _ = _
+  rw [modifyAt_getElem?, hj, ← AnyL.reset_eq]
+  rfl
+
+example : (0 : Rat) ≤ 2 ∧
+    ((MLA.new [⟨false, 2, 2, (1, 1), (1, 0), ⟨1, 10⟩, 3⟩]).step (.evolve 2)).layers[0]? =
+      some (((MLA.new [⟨false, 2, 2, (1, 1), (1, 0), ⟨1, 10⟩, 3⟩]).step (.evolve 2)).layers.headD (AnyL.new ⟨false, 2, 2, (1, 1), (1, 0), ⟨1, 10⟩, 3⟩)) := by
+  decide +kernel
+
+/-- **Equal target time after new layers were assigned.**  `atm.layers = [Layer(…, seed=sᵢ) …]` on an atmosphere in any
+state, then `evolve_until(t)` (`t ≥ 0`; in particular the time the atmosphere had recorded before): the atmosphere is,
+as a state, the atmosphere freshly built from those layers and evolved to `t`. -/
+theorem multilayer_equal_time_after_new_layers (A : MLA) (specs : List Spec) (t : Rat) (h0 : 0 ≤ t) :
+    (A.setLayers specs).step (.evolve t) = (MLA.new specs).step (.evolve t) := by
+  have hacc : ∀ b ∈ specs.map AnyL.new, b.accepts t := by
+    intro b hb
+    obtain ⟨s, _, rfl⟩ := List.mem_map.1 hb
+    exact AnyL.accepts_of_le _ t (by rw [AnyL.new_t]; exact h0)
+  have he := evolveAll_accepts t _ hacc
+  simp [MLA.step, MLA.evolve, MLA.setLayers, MLA.new, he]
+
+example : (0 : Rat) ≤ 2 := by decide
+
+/-- **A new atmosphere around layers that have already been evolved** (`MultiLayerAtmosphere(atm.layers)`, own clock at
+0): `evolve_until(t)` does to the layers exactly what it does in the old atmosphere — with
+`multilayer_time_fanout_any_clock`: `evolve_until(0)` rewinds every finite layer to time zero. -/
+theorem multilayer_rewrap_evolve (A : MLA) (t : Rat) :
+    (A.rewrap.step (.evolve t)).layers = (A.step (.evolve t)).layers ∧ A.rewrap.layers = A.layers ∧ A.rewrap.t = 0 :=
+  ⟨rfl, rfl, rfl⟩
+
+/-- **Why the stored time must not be used as a shortcut** (the regression class of round 6): an `evolve_until` that
+returns early when `t` equals the atmosphere's stored time leaves a layer that was reset directly at time zero, where
+the code as it is brings it back to `t`. -/
+theorem multilayer_short_circuit_counterexample :
+    let A := ((MLA.new [⟨false, 2, 2, (1, 1), (1, 0), ⟨1, 10⟩, 3⟩]).step (.evolve 2)).step (.direct 0 (.reset false))
+    A.t = 2 ∧ (A.step (.evolve 2)).layers.map AnyL.t = [2] ∧
+    (if (2 : Rat) = A.t then A else A.step (.evolve 2)).layers.map AnyL.t = [0] := by decide +kernel
 
 /-- **D515.** Before the repair `MultiLayerAtmosphere.reset()` rewound the layers but not its own clock: after
 `evolve_until(1); reset()` the atmosphere reports `t = 1` while every layer is at time zero. -/
